@@ -15,6 +15,7 @@ RULE = ("Magnitude / Quantity operands with values of either sign, absolute unce
         "to(v)/value-preserving conversion scales the absolute error by F(u)/F(v) and keeps the relative error; exact "
         "operands give an exact result; integer errors set with the in-place setter; a.to(b) with an uncertain reference "
         "quantity b behaves like a/b. Non-trivial: negative factor or exponent or value, array operand, or a "
+        "Round 4: sums/differences of levels (dB family) with errors, the same object on both sides of an operator, bare numbers converted to (m)rad. "
         "conversion with F(u)!=F(v) of an uncertain quantity. Distinct = distinct case JSON.")
 ASSUMPTIONS = [
     "the size of the power rule is not claimed by the property (only its sign is checked)",
